@@ -370,3 +370,275 @@ Proof.
     rewrite step_put_val, ES. reflexivity.
 Qed.
 End Enc.
+
+Section Enc2.
+Variable md5 : list byte -> list byte.
+Notation enc := (enc md5).
+Notation encodes := (encodes md5).
+
+Lemma plain_good : forall v, plain v -> good v.
+Proof.
+  apply (value_ind' (fun v => plain v -> good v)); try (intros; exact I); try (intros ? ? []; fail).
+  intros l IH Hp. rewrite good_VTuple. rewrite plain_VTuple in Hp.
+  rewrite Forall_forall in *. intros x Hx. apply IH; auto.
+Qed.
+
+Lemma save_class_spec f m : memo_wf m ->
+  let (c, m1) := save_class f m in
+  memo_wf m1 /\ forall s, run c (St s m) = Some (St (SCls f :: s) m1).
+Proof.
+  intros Hm. pose proof Hm as (H1 & H2 & H3). unfold save_class.
+  destruct f; cbv iota.
+  - case_eq (mfset m); [intros i E|intros E].
+    + split; [exact Hm|]. intros s. cbn [run]. unfold get_op.
+      assert (Hg : step_get i (St s m) = Some (St (SCls true :: s) m)).
+      { unfold step_get. cbn [tset tfset St stk]. rewrite E.
+        destruct (mset m) as [j|] eqn:Ej; cbn [opt_is].
+        - assert (j <> i) by (eapply H3; eauto). destruct (j =? i) eqn:Eji; [apply Z.eqb_eq in Eji; contradiction|].
+          rewrite Z.eqb_refl. reflexivity.
+        - rewrite Z.eqb_refl. reflexivity. }
+      destruct (i <? 256); cbn [step]; rewrite Hg; reflexivity.
+    + split.
+      * repeat split; cbn [mset mfset mnext]; intros.
+        -- apply H1 in H. lia.
+        -- injection H as <-. lia.
+        -- injection H0 as <-. apply H1 in H. lia.
+      * intros s. cbn [run step stk St with_stk]. unfold put_op.
+        destruct (mnext m <? 256); reflexivity.
+  - case_eq (mset m); [intros i E|intros E].
+    + split; [exact Hm|]. intros s. cbn [run]. unfold get_op.
+      assert (Hg : step_get i (St s m) = Some (St (SCls false :: s) m)).
+      { unfold step_get. cbn [tset tfset St stk]. rewrite E. cbn [opt_is]. rewrite Z.eqb_refl. reflexivity. }
+      destruct (i <? 256); cbn [step]; rewrite Hg; reflexivity.
+    + split.
+      * repeat split; cbn [mset mfset mnext]; intros.
+        -- injection H as <-. lia.
+        -- apply H2 in H. lia.
+        -- injection H as <-. apply H2 in H0. lia.
+      * intros s. cbn [run step stk St with_stk]. unfold put_op.
+        destruct (mnext m <? 256); reflexivity.
+Qed.
+
+Lemma encodes_set f l : keys_ok l -> Forall (fun x => good x -> encodes x) l ->
+  HashEncInj.encodes_as (enc_set md5 f (map (mk_selem md5) l)) [if f then VFrozenSet (sorte l) else VSet (sorte l)].
+Proof.
+  intros [Hpl Hk] IH m Hm. unfold enc_set.
+  (* the sorted element list *)
+  assert (Hkid : key_order_ok (map (fun x : value => x) l)) by (rewrite map_id; exact Hk).
+  destruct (keyed_map (fun x : value => x) py_lt (fst : selem -> value) selem_lt (mk_selem md5) l Hkid)
+    as (s0 & Hs0 & Hs & Hp0); auto.
+  { intros x y _ _ _. reflexivity. }
+  { apply selem_lt_by_key. }
+  assert (Hso : set_order md5 (map (mk_selem md5) l) = Some (map snd (map (mk_selem md5) s0))).
+  { unfold set_order. rewrite Hs. reflexivity. }
+  rewrite Hso. rewrite map_map. cbn [mk_selem snd].
+  assert (Hsorte : sorte l = s0) by (unfold sorte; rewrite Hs0; reflexivity). rewrite Hsorte.
+  pose proof (save_class_spec f m Hm) as Hc. destruct (save_class f m) as [c m1]. destruct Hc as [W1 Rc].
+  destruct (memoize m1) as [p_obj m2] eqn:Em2. destruct (memoize m2) as [p_state m3] eqn:Em3.
+  assert (E2 : m2 = snd (memoize m1)) by (rewrite Em2; reflexivity).
+  assert (E3 : m3 = snd (memoize m2)) by (rewrite Em3; reflexivity).
+  assert (Ep2 : p_obj = [put_op (mnext m1)]) by (unfold memoize in Em2; congruence).
+  assert (Ep3 : p_state = [put_op (mnext m2)]) by (unfold memoize in Em3; congruence).
+  assert (W3 : memo_wf m3) by (subst m3 m2; apply memoize_wf, memoize_wf; exact W1).
+  (* the element list is encoded like the list of its (plain) elements *)
+  assert (Hgs : Forall encodes s0).
+  { rewrite Forall_forall in *. intros x Hx.
+    assert (In x l) by (eapply Permutation_in; eauto). apply IH; auto. apply plain_good. auto. }
+  destruct (encodes_list md5 s0 Hgs m3 W3) as (lops & m4 & El & Pl & W4).
+  rewrite enc_VList in El. change (fun x : value => HashEnc.enc md5 x) with (HashEnc.enc md5). rewrite El.
+  eexists _, m4. split; [reflexivity|]. split; [|exact W4].
+  assert (Hn : normv (VList s0) = VList s0).
+  { rewrite normv_VList. f_equal. rewrite <- (map_id s0) at 2. apply map_ext_in. intros x Hx. apply normv_plain.
+    rewrite Forall_forall in Hpl. apply Hpl. eapply Permutation_in; eauto. }
+  rewrite Hn in Pl.
+  intros s. subst p_obj p_state.
+  rewrite run_app, Rc. cbn [app run].
+  replace (step OEmptyTuple (St (SCls f :: s) m1)) with (Some (St (SV (VTuple []) :: SCls f :: s) m1)) by reflexivity.
+  replace (step ONewObj (St (SV (VTuple []) :: SCls f :: s) m1)) with (Some (St (SObj f :: s) m1)) by reflexivity.
+  rewrite step_put_obj.
+  replace (step OEmptyDict (St (SObj f :: s) m1)) with (Some (St (SV (VDict []) :: SObj f :: s) m1)) by reflexivity.
+  rewrite step_put_val.
+  replace (step (OBinUnicode name_sequence) (St (SV (VDict []) :: SObj f :: s) m1))
+    with (Some (St (SV (VStr name_sequence) :: SV (VDict []) :: SObj f :: s) m3)) by (subst m3 m2; reflexivity).
+  rewrite run_app, Pl. cbn [map rev app run].
+  replace (step OSetItem (St (SV (VList s0) :: SV (VStr name_sequence) :: SV (VDict []) :: SObj f :: s) m4))
+    with (Some (St (SV (VDict [(VStr name_sequence, VList s0)]) :: SObj f :: s) m4)) by reflexivity.
+  destruct f; reflexivity.
+Qed.
+
+Lemma encodes_dict items : keys_ok (map fst items) -> Forall (fun kv => good (snd kv)) items ->
+  Forall (fun kv => (good (fst kv) -> encodes (fst kv)) /\ (good (snd kv) -> encodes (snd kv))) items ->
+  encodes (VDict items).
+Proof.
+  intros [Hpl Hk] Hg IH m Hm. unfold HashEncInj.encodes. rewrite enc_VDict, normv_VDict. unfold enc_dict.
+  destruct (memoize m) as [p m1] eqn:Em.
+  assert (Em1 : m1 = snd (memoize m)) by (rewrite Em; reflexivity).
+  assert (Ep : p = [put_op (mnext m)]) by (unfold memoize in Em; congruence).
+  assert (W1 : memo_wf m1) by (subst m1; apply memoize_wf; exact Hm).
+  set (its := map (mk_ditem md5) items).
+  assert (Hk1 : key_order_ok (map dkey its)) by (unfold its; rewrite map_dkey_mk; exact Hk).
+  set (f := fun it : ditem => match it with (k, v, _, _) => (k, normv v) end).
+  destruct (keyed_map dkey ditem_lt (fst : value * value -> value) kv_lt f its Hk1) as (s & Hs & Hs' & Hp); auto.
+  { intros [[[k v] ek] ev]. reflexivity. }
+  { apply ditem_lt_by_key. exact Hk1. }
+  { intros x y _ _ _. reflexivity. }
+  assert (Hdo : dict_order md5 its = Some (map dproj s)) by (unfold dict_order; rewrite Hs; reflexivity).
+  rewrite Hdo.
+  assert (Hnk : map f its = map nkv items).
+  { unfold its. rewrite map_map. apply map_ext. intros [k x]. reflexivity. }
+  assert (Hsortk : sortk (map nkv items) = map f s) by (unfold sortk; rewrite <- Hnk, Hs'; reflexivity).
+  rewrite Hsortk.
+  (* every sorted item is an original item: its encoders push [k; normv v] *)
+  assert (HF : Forall2 (HashEncInj.encodes_as) (map pair_encoder (map dproj s))
+                       (map (fun it : ditem => [fst (f it); snd (f it)]) s)).
+  { assert (Hin : forall it, In it s -> In it its) by (intros it Hi; eapply Permutation_in; eauto).
+    clear - Hin IH Hg Hpl. induction s as [|it s IHs]; cbn [map]; constructor.
+    - assert (Hi : In it its) by (apply Hin; left; reflexivity).
+      unfold its in Hi. apply in_map_iff in Hi. destruct Hi as ([k x] & <- & Hkx).
+      rewrite Forall_forall in IH, Hg, Hpl. destruct (IH _ Hkx) as [IHk IHx]. cbn [fst snd] in *.
+      assert (Pk : plain k) by (apply Hpl; apply in_map_iff; exists (k, x); auto).
+      pose proof (IHk (plain_good k Pk)) as Ek. pose proof (IHx (Hg _ Hkx)) as Ex.
+      intros m Hm. unfold pair_encoder, mk_ditem, dproj, f. cbn [fst snd].
+      destruct (Ek m Hm) as (ok & m1 & E1 & P1 & W1). rewrite (normv_plain k Pk) in P1.
+      destruct (Ex m1 W1) as (ox & m2 & E2 & P2 & W2). rewrite E1, E2.
+      eexists _, m2. split; [reflexivity|]. split; [|exact W2].
+      eapply (pushes_app ok ox [k] [normv x]); eassumption.
+    - apply IHs. intros it' Hi. apply Hin. right. exact Hi. }
+  destruct (run_seq_chain _ _ HF m1 W1) as (os & m2 & E & C & W2). rewrite E.
+  eexists _, m2. split; [reflexivity|]. split; [|exact W2].
+  intros s0. subst p. cbn [run app].
+  replace (step OEmptyDict (St s0 m)) with (Some (St (SV (VDict []) :: s0) m)) by reflexivity.
+  rewrite step_put_val.
+  assert (ES : St (SV (VDict []) :: s0) m = St (SV (VDict []) :: s0) m1) by (subst m1; reflexivity).
+  rewrite ES, (batch_dict os _ m1 m2 [] s0 C).
+  - rewrite pairs_tot_concat. cbn [app map rev].
+    replace (map (fun x : ditem => (fst (f x), snd (f x))) s) with (map f s); [reflexivity|].
+    apply map_ext. intros it. destruct (f it); reflexivity.
+  - clear. induction s; cbn [map]; constructor; auto. eexists _, _. reflexivity.
+Qed.
+
+Theorem good_encodes : forall v, good v -> encodes v.
+Proof.
+  apply (value_ind' (fun v => good v -> encodes v)).
+  - intros _. unfold HashEncInj.encodes, encodes_as. cbn [HashEnc.enc normv]. apply (push1 ONone VNone). reflexivity.
+  - intros b _. unfold HashEncInj.encodes, encodes_as. cbn [HashEnc.enc normv]. destruct b; [apply (push1 OTrue (VBool true))|apply (push1 OFalse (VBool false))]; reflexivity.
+  - intros z _. unfold HashEncInj.encodes, encodes_as. cbn [HashEnc.enc normv]. unfold enc_int.
+    destruct ((0 <=? z) && (z <=? 255)); [apply (push1 (OBinInt1 z) (VInt z)); reflexivity|].
+    destruct ((0 <=? z) && (z <=? 65535)); [apply (push1 (OBinInt2 z) (VInt z)); reflexivity|].
+    destruct ((-2147483648 <=? z) && (z <=? 2147483647)); [apply (push1 (OBinInt z) (VInt z)); reflexivity|].
+    destruct (zlen (encode_long z) <? 256).
+    + apply (push1 (OLong1 (encode_long z)) (VInt z)). intros s m. cbn [step]. rewrite dec_enc_long. reflexivity.
+    + apply (push1 (OLong4 (encode_long z)) (VInt z)). intros s m. cbn [step]. rewrite dec_enc_long. reflexivity.
+  - intros b _. unfold HashEncInj.encodes, encodes_as. cbn [HashEnc.enc normv]. apply (push1 (OBinFloat b) (VFloat b)). reflexivity.
+  - intros u _. unfold HashEncInj.encodes, encodes_as. cbn [HashEnc.enc normv enc_str]. apply (push1 (OBinUnicode u) (VStr u)). reflexivity.
+  - intros b _. unfold HashEncInj.encodes, encodes_as. cbn [HashEnc.enc normv]. unfold enc_bytes.
+    destruct (zlen b <=? 255); [apply (push1 (OShortBinBytes b) (VBytes b))|apply (push1 (OBinBytes b) (VBytes b))]; reflexivity.
+  - intros l IH G. apply encodes_tuple. rewrite good_VTuple in G. rewrite Forall_forall in *. intros x Hx. apply IH; auto.
+  - intros l IH G. apply encodes_list. rewrite good_VList in G. rewrite Forall_forall in *. intros x Hx. apply IH; auto.
+  - intros items IH G. rewrite good_VDict in G. destruct G as [Hk Hg]. apply encodes_dict; auto.
+  - intros l IH G. unfold HashEncInj.encodes. rewrite enc_VSet. apply (encodes_set false); auto.
+  - intros l IH G. unfold HashEncInj.encodes. rewrite enc_VFrozenSet. apply (encodes_set true); auto.
+Qed.
+End Enc2.
+
+(* ---------------------------------------------------------------- canonical form vs veq *)
+Lemma sorte_perm l : key_order_ok l -> Permutation l (sorte l).
+Proof.
+  intros Hk. assert (Hkid : key_order_ok (map (fun x : value => x) l)) by (rewrite map_id; exact Hk).
+  destruct (keyed_spec (fun x : value => x) py_lt l Hkid) as (s & Hs & _ & Hp).
+  { intros x y _ _ _. reflexivity. }
+  unfold sorte. rewrite Hs. apply Permutation_sym. exact Hp.
+Qed.
+
+Lemma sortk_perm l : key_order_ok (map fst l) -> Permutation l (sortk l).
+Proof.
+  intros Hk. destruct (keyed_spec (fst : value * value -> value) kv_lt l Hk) as (s & Hs & _ & Hp).
+  { intros x y _ _ _. reflexivity. }
+  unfold sortk. rewrite Hs. apply Permutation_sym. exact Hp.
+Qed.
+
+Lemma normv_veq : forall v, good v -> veq v (normv v).
+Proof.
+  apply (value_ind' (fun v => good v -> veq v (normv v))); try (intros; apply veq_refl).
+  - intros l IH G. rewrite normv_VTuple. apply veq_tuple. rewrite good_VTuple in G.
+    induction l as [|x t IHt]; cbn [map]; constructor; inversion IH; inversion G; subst; auto.
+  - intros l IH G. rewrite normv_VList. apply veq_list. rewrite good_VList in G.
+    induction l as [|x t IHt]; cbn [map]; constructor; inversion IH; inversion G; subst; auto.
+  - intros items IH G. rewrite normv_VDict. rewrite good_VDict in G. destruct G as [[_ Hk] Hg].
+    eapply veq_trans; [apply (veq_dict_vals items (map nkv items))|apply veq_dict_perm, sortk_perm].
+    + clear Hk. induction items as [|[k x] t IHt]; cbn [map]; constructor; inversion IH; inversion Hg; subst.
+      * cbn [nkv fst snd] in *. split; [reflexivity|]. tauto.
+      * apply IHt; auto.
+    + rewrite map_map. cbn [nkv fst]. exact Hk.
+  - intros l _ G. cbn [normv good] in *. apply veq_set_perm, sorte_perm. apply G.
+  - intros l _ G. cbn [normv good] in *. apply veq_fset_perm, sorte_perm. apply G.
+Qed.
+
+Definition same_kind (a b : value) : Prop :=
+  match a, b with
+  | VNone, VNone | VBool _, VBool _ | VInt _, VInt _ | VFloat _, VFloat _ | VStr _, VStr _ | VBytes _, VBytes _
+  | VTuple _, VTuple _ | VList _, VList _ | VDict _, VDict _ | VSet _, VSet _ | VFrozenSet _, VFrozenSet _ => True
+  | _, _ => False
+  end.
+
+Lemma veq_same_kind a b : veq a b -> same_kind a b.
+Proof.
+  revert a b. apply veq_ind'; try (intros; exact I).
+  - intros v. destruct v; exact I.
+  - intros a b _ H. destruct a, b; cbn in *; auto.
+  - intros a b c _ H1 _ H2. destruct a, b; cbn in H1; try contradiction; destruct c; cbn in *; auto.
+Qed.
+
+(* ---------------------------------------------------------------- injectivity of the byte stream *)
+Section Final.
+Variable md5 : list byte -> list byte.
+
+(* every length / int / memo index of the stream fits the field the protocol gives it *)
+Definition fits (v : value) : Prop := forall ops, enc_top_ops md5 v = Some ops -> Forall op_wf ops.
+
+Lemma enc_top_decode v : good v -> exists ops m',
+  enc md5 v memo0 = Some (ops, m') /\ run ops (St [] memo0) = Some (St [SV (normv v)] m').
+Proof.
+  intros G. destruct (good_encodes md5 v G memo0 memo_wf0) as (ops & m' & E & P & _).
+  exists ops, m'. split; [exact E|]. apply (P []).
+Qed.
+
+Theorem enc_top_total a : good a -> enc_top md5 a <> None.
+Proof.
+  intros G. destruct (enc_top_decode a G) as (ops & m' & E & _).
+  unfold enc_top, enc_top_ops. rewrite E. discriminate.
+Qed.
+
+Theorem enc_top_inj a b s : good a -> good b -> fits a -> fits b ->
+  enc_top md5 a = Some s -> enc_top md5 b = Some s -> veq a b.
+Proof.
+  intros Ga Gb Fa Fb Ha Hb.
+  destruct (enc_top_decode a Ga) as (oa & ma & Ea & Ra). destruct (enc_top_decode b Gb) as (ob & mb & Eb & Rb).
+  assert (Ha' : enc_top_ops md5 a = Some (OProto :: oa ++ [OStop])) by (unfold enc_top_ops; rewrite Ea; reflexivity).
+  assert (Hb' : enc_top_ops md5 b = Some (OProto :: ob ++ [OStop])) by (unfold enc_top_ops; rewrite Eb; reflexivity).
+  unfold enc_top in Ha, Hb. rewrite Ha' in Ha. rewrite Hb' in Hb. injection Ha as Ha. injection Hb as Hb.
+  assert (Hops : OProto :: oa ++ [OStop] = OProto :: ob ++ [OStop]).
+  { apply ser_all_inj; [apply Fa; exact Ha'|apply Fb; exact Hb'|transitivity s; [exact Ha|symmetry; exact Hb]]. }
+  injection Hops as Hops. apply app_inj_tail in Hops. destruct Hops as [-> _].
+  rewrite Ra in Rb. injection Rb as Hn _ _.
+  eapply veq_trans; [apply normv_veq; exact Ga|]. rewrite Hn. apply veq_sym, normv_veq. exact Gb.
+Qed.
+
+Theorem enc_top_same_kind a b s : good a -> good b -> fits a -> fits b ->
+  enc_top md5 a = Some s -> enc_top md5 b = Some s -> same_kind a b.
+Proof. intros. apply veq_same_kind. eapply enc_top_inj; eauto. Qed.
+
+Theorem types_list_tuple l s : good (VList l) -> fits (VList l) -> fits (VTuple l) ->
+  enc_top md5 (VList l) = Some s -> enc_top md5 (VTuple l) <> Some s.
+Proof.
+  intros G F1 F2 H1 H2.
+  assert (G2 : good (VTuple l)) by (rewrite good_VTuple; rewrite good_VList in G; exact G).
+  exact (enc_top_same_kind _ _ _ G G2 F1 F2 H1 H2).
+Qed.
+End Final.
+
+(* [fits] is satisfiable (and decidable by computation on a concrete value) *)
+Lemma fits_example : forall md5, fits md5 (VDict [(VInt 300, VList [VInt (-5); VStr [97]]); (VInt 7, VSet [VInt 70000])]).
+Proof.
+  intros md5 ops H. vm_compute in H. injection H as <-. repeat constructor; cbn; try lia; auto.
+Qed.
